@@ -227,15 +227,18 @@ def run(ck, prog, tier, load):
     ):
         b = prog.one(pat)
         inner_calls = [bb for bb, t in b.calls(inner_pat)]
-        pst = [bb for bb, t in b.calls(r"PayloadBuffer::poll_stream$") if any(r[0] == "arg" and r[2] == "cx" for a in t["args"] for r in e_roots(b.op_expr(a)))]
+        pst = [bb for bb, t in b.calls(r"PayloadBuffer::poll_stream$") if any(root_is(b.op_expr(a), args_of_type(b, r"core::task::wake::Context")) for a in t["args"])]
         ok = bool(inner_calls) and bool(pst) and all(any(b.dominates(p, i) for p in pst) for i in inner_calls)
         ck.ob("C15-c.poll-stream-first", b.npath, ok, b, inner_calls[0] if inner_calls else None,
               "parsing is dominated by PayloadBuffer::poll_stream(cx): the task is registered with the source before Pending can be returned")
     # poll_stream: early exits after an append self-wake
+    # APP = the bool variable(s) of poll_stream accumulating the result of append_pending() ("something was appended")
+    APP = set(l for l in user_locals(ps, r"^bool$") if any(e_calls(ps.def_expr(d, 5), r"append_pending$") for d in ps.defs().get(l, [])))
+    ck.anchor("C15-c", len(APP), 1, "bool variable fed by append_pending() in poll_stream")
     app_sw = []
     for a in ps.live:
         br = ps.branch(a)
-        if br and any(r[0] in ("var", "phi") and r[2] == "appended" for r in e_roots(br[0])):
+        if br and root_is(br[0], APP):
             app_sw.append((a, br))
     ck.anchor("C15-c", len(app_sw), 3, "tests of `appended` in poll_stream")
     wk = [bb for bb, t in ps.calls(r"Waker::wake_by_ref$")]
@@ -320,7 +323,10 @@ def run(ck, prog, tier, load):
         ck.ob("C15-e.pending-pure", rs.npath, not bad, rs, bb, "read_stream returns Pending without having consumed buffered bytes")
 
     # ---- (f) delimiter candidates are never emitted as data --------------------------------
-    blen = edges_where(rs, lambda c, lab: c[0] == "discr" and c[2] == "core::option::Option" and any(r[0] in ("var", "phi") and r[2] == "b_len" for r in e_roots(c)) and lab == "Some")
+    # BLEN = the Option<usize> variable holding the length of a delimiter candidate at the start of the buffer
+    BLEN = set(l for l in user_locals(rs, r"Option<usize>$") if any(any(is_agg(x, r"Option::Some$") and x[3] and x[3][0][0] == "const" for x in walk(rs.def_expr(d, 5))) for d in rs.defs().get(l, [])))
+    ck.anchor("C15-f", len(BLEN), 1, "Option<usize> variable with a constant Some(..) definition in read_stream (delimiter-candidate length)")
+    blen = edges_where(rs, lambda c, lab: c[0] == "discr" and c[2] == "core::option::Option" and root_is(c, BLEN) and lab == "Some")
     ck.anchor("C15-f", len(blen), 1, "Some edge of the delimiter-candidate test (b_len) in read_stream")
     data_rets = [bb for bb, e in rs.ret_exprs() if agg_chain(e)[0][:3] == ["core::task::poll::Poll::Ready", "core::option::Option::Some", "core::result::Result::Ok"]]
     ck.anchor("C15-f", len(data_rets), 2, "data-emitting returns of read_stream")
